@@ -16,7 +16,7 @@ def main() -> int:
     out = []
     for case in cases:
         r = c12_build.execute(case, "A", 0, resort=False)
-        out.append({"exc": r.get("exc", "move operation raised"), "post": r.get("post")})
+        out.append(c12_build.outcome(r))
     json.dump({"hashseed": os.environ.get("PYTHONHASHSEED"), "results": out}, sys.stdout)
     return 0
 
